@@ -345,6 +345,70 @@ func TestC13Sync(t *testing.T) {
 					return wl
 				}
 				served := checkServed("pending", prevRoot, startModel)
+				if rapid.IntRange(0, 2).Draw(t, "recommit") == 0 {
+					// the SAME transition committed a second time before finalization by another tree that reaches the end
+					// contents through a different sequence of operations (net difference first, then noise: keys inserted and
+					// removed again, unchanged keys removed and re-inserted with their value): the root already exists, the
+					// database must keep serving a correct log for the pair (or none)
+					var re mkvs.Tree
+					if prevRoot.Hash.IsEmpty() {
+						re = mkvs.New(nil, src, rootType)
+					} else {
+						re = mkvs.NewWithRoot(nil, src, prevRoot)
+					}
+					var ks []string
+					seen := map[string]bool{}
+					for k := range startModel {
+						if !seen[k] {
+							seen[k] = true
+							ks = append(ks, k)
+						}
+					}
+					for k := range model {
+						if !seen[k] {
+							seen[k] = true
+							ks = append(ks, k)
+						}
+					}
+					sort.Strings(ks)
+					for _, k := range ks {
+						nv, in := model[k]
+						ov, was := startModel[k]
+						switch {
+						case in && (!was || !bytes.Equal(nv, ov)):
+							_ = re.Insert(ctx, []byte(k), nv)
+						case !in && was:
+							_ = re.Remove(ctx, []byte(k))
+						case in && rapid.IntRange(0, 2).Draw(t, "reNoise") == 0:
+							_ = re.Remove(ctx, []byte(k))
+							_ = re.Insert(ctx, []byte(k), nv)
+						}
+					}
+					for i := rapid.IntRange(0, 2).Draw(t, "reExtra"); i > 0; i-- {
+						k := uni[rapid.IntRange(0, len(uni)-1).Draw(t, "reKey")]
+						if _, in := model[string(k)]; !in {
+							_ = re.Insert(ctx, k, []byte("tmp"))
+							_ = re.Remove(ctx, k)
+						}
+					}
+					reLog, reHash, err := re.Commit(ctx, kv.Namespace, v)
+					re.Close()
+					switch {
+					case err != nil:
+						rec.Label("recommit-not-accepted:" + srcBackend)
+					case reHash != rh:
+						fail("tree", "the same contents committed again hash to %s instead of %s", reHash, rh)
+					default:
+						rec.Label("recommit:" + srcBackend)
+						trace = append(trace, fmt.Sprintf("v%d hop%d: same transition committed again through other operations", v, hop))
+						if !applyToModel(startModel, reLog).Equal(model) {
+							fail("commit-log-wrong", "write log returned by the second Commit of the same transition does not transform the start contents into the end contents (v%d)", v)
+						}
+						if s2 := checkServed("pending-recommitted", prevRoot, startModel); s2 != nil {
+							served = s2
+						}
+					}
+				}
 				if hop == hops-1 {
 					if err := src.Finalize([]node.Root{endRoot}); err != nil {
 						rec.Label("finalize-not-accepted:" + srcBackend)
